@@ -111,11 +111,16 @@ class RLScheduler(BaseScheduler):
     def _train(self) -> None:
         """Run the training loop."""
         state = self._env.reset()
-        while not self._stopped:
+        while True:
             # Get the action chosen by the agent
             action = self._agent.policy(state)
             # Interact with the environment
-            next_state, reward, _, _, _ = self._env.step(action)
+            next_state, reward, _, truncated, _ = self._env.step(action)
+            if truncated:
+                # end-of-session marker: the chosen action has not been (and will not be) executed,
+                # so there is nothing to learn from it. The loop ends on the marker, not on the
+                # '_stopped' flag, so that the marker is always consumed.
+                break
             # Learn from interaction
             self._agent.learn(state, action, reward, next_state)
             state = next_state
@@ -165,3 +170,7 @@ class RLScheduler(BaseScheduler):
         self._stopped = True
         self._out_queue.put(None)
         cast(threading.Thread, self._agent_thread).join()
+        # the agent had already chosen its next action when the session ended: discard it, otherwise
+        # the next session would execute it in place of the agent's new choice
+        while not self._in_queue.empty():
+            self._in_queue.get_nowait()
